@@ -1221,6 +1221,78 @@ def coq_case(c, r):
                                        cbool(BEST_FIT_VARIANT["v"] == "skips-none")), None
 
 
+def ident_sides(c, r):
+    """per scripted single fit of a scenario (names unique): the identifier on its three sides, found by the fit's
+    NAME, never by an id -- folder name the directory route wrote, id of the database fit loaded from it, id of the
+    same fit written through a session.  None for a side that does not exist in this scenario."""
+    if c["kind"] != "scenario" or c.get("two_dirs") or c.get("copies"):
+        return []
+    names = [f["name"] for f in c["fits"]]
+    idents = [rec.get("identifier") for rec in r["fits"]]     # (two fits written under ONE identifier share one database fit)
+    co = bool(c.get("completed_only", False))
+    sc, dr = r["scrape"], r.get("direct")
+    out = []
+    for k, (f, rec) in enumerate(zip(c["fits"], r["fits"])):
+        if (f["type"] != "single" or f["search"]["cls"] != "Scripted" or f.get("prefit") or names.count(f["name"]) != 1
+                or rec.get("exc") or not rec.get("identifier") or "search_tokens" not in rec or idents.count(rec["identifier"]) != 1
+                or fit_labels(f) & {"model:fixed-component", "model:arith-prior", "info:container-value"}
+                or f.get("layout") in ("zip+partial", "zip+stale")
+                or (co and f["scripts"][0].get("interrupt"))):
+            continue
+        folders = [e["folder"] for e in r["directory"] if e["metadata"] and e["parent_identifier"] is None
+                   and e.get("search_name") == f["name"]]
+        loaded = None if sc.get("exc") else [x["id"] for x in sc.get("fits", []) if not x["is_grid_search"] and x["name"] == f["name"]]
+        session = None
+        # (combined analyses through a session: the rows carry other names -- out of scope, see ctx.assumptions)
+        if dr and f.get("n_analyses", 1) == 1 and not dr.get("exc") and k < len(dr.get("fits_run", [])) and not dr["fits_run"][k].get("skipped") \
+                and not dr["fits_run"][k].get("exc"):
+            session = [x["id"] for x in dr.get("fits", []) if not x["is_grid_search"] and x["name"] == f["name"]]
+        out.append({"fit": f, "rec": rec, "folders": folders, "loaded": loaded, "session": session})
+    return out
+
+
+def md5_tokens(tokens):
+    return hashlib.md5(".".join(tokens).encode("utf-8")).hexdigest()
+
+
+def coq_ident_cases(c, r):
+    """CIdent terms: model tokens (writer / loader side) -> md5 table (oracle) vs the ids found on the three sides"""
+    terms = []
+    for s in ident_sides(c, r):
+        f, rec = s["fit"], s["rec"]
+        if s["loaded"] is None or s["session"] is None:
+            continue
+        sm = rec["search_tokens"] + rec["model_tokens"]
+        cands = [sm, sm + [""]] + ([sm + [f["tag"]]] if f.get("tag") else [])
+        table = clist([cpair(c_strs(t), cstr(md5_tokens(t))) for t in cands])
+        one = lambda l: l[0] if len(l) == 1 else "MISSING" if not l else "AMBIGUOUS"
+        terms.append("CIdent %s %s %s %s %s %s %s" % (c_strs(rec["search_tokens"]), c_strs(rec["model_tokens"]), c_ostr(f.get("tag")),
+                                                    table, cstr(one(s["folders"])), cstr(one(s["loaded"])), cstr(one(s["session"]))))
+    return terms
+
+
+def oracle_ident(c, r):
+    """C11, first clause, stated on names: the fit loaded from a folder carries the folder's name as its id, and the
+    same fit written through a session carries that id too"""
+    errs = []
+    for s in ident_sides(c, r):
+        nm = s["fit"]["name"]
+        if len(s["folders"]) != 1:
+            errs.append("fit %s (name %r, tag %r): %d search folders written under that name" % (s["rec"]["identifier"], nm, s["fit"].get("tag"), len(s["folders"])))
+            continue
+        folder = s["folders"][0]
+        if s["loaded"] is not None and s["loaded"] != [folder]:
+            errs.append("fit %s (name %r, tag %r): loaded from folder %s but the database fit of that name has id %s"
+                        % (folder, nm, s["fit"].get("tag"), folder, ",".join(s["loaded"]) or "(no such fit)"))
+        if s["session"] is not None and s["session"] != [folder]:
+            errs.append("fit %s (name %r, tag %r): written under folder name %s by the directory route but under id %s through a session"
+                        % (folder, nm, s["fit"].get("tag"), folder, ",".join(s["session"]) or "(no such fit)"))
+        if s["loaded"] is not None and s["session"] is not None and s["loaded"] != s["session"]:
+            errs.append("fit %s (name %r, tag %r): loaded id %s differs from the session-written id %s"
+                        % (folder, nm, s["fit"].get("tag"), ",".join(s["loaded"]), ",".join(s["session"])))
+    return errs
+
+
 def coq_disk_case(c, r):
     """CDisk term: archives and folders as they lay on disk before the load, each read on its own"""
     if c["kind"] != "scenario" or "directory_raw" not in r:
@@ -1245,6 +1317,8 @@ def coq_disk_case(c, r):
 def oracle_settings(c, r):
     if r.get("missing"):
         return "search class %s no longer exists" % c["cls"]
+    if r.get("stage") == "construct" and c.get("unusual"):
+        return None     # the class itself rejects the value: not a legal input
     if r.get("stage") != "ok":
         return "%s: search settings cannot be read back (%s at %s: %s)" % (c["cls"], r.get("exc"), r.get("stage"), r.get("msg", "")[:120])
     if r["reload_type"] != c["cls"]:
@@ -1661,6 +1735,8 @@ def run(ctx):
             ctx.hist("folders", len(ro.get("directory", [])))
             ctx.hist("scenario_shape", c.get("shape", "random"))
             msgs = oracle_scenario(c, ro)
+            if not any(m.startswith(("writing fit", "harness:")) for m in msgs):
+                msgs = msgs + [m for m in oracle_ident(c, ro) if m not in msgs]
         for msg in msgs:
             ctx.oracle["failures"] += 1
             ctx.failure("oracle", msg, c, classes=attributable(c, ro, msg), impl=summary(ro))
@@ -1687,6 +1763,14 @@ def run(ctx):
             coq_cases.append(dc)
             coq_idx.append((i, bool(msgs)))
             ctx.hist("disk_view_terms", "CDisk")
+        if c["kind"] == "scenario":
+            try:
+                for t in coq_ident_cases(c, ro):
+                    coq_cases.append(t)
+                    coq_idx.append((i, bool(msgs)))
+                    ctx.hist("ident_terms", "CIdent")
+            except Exception as e:  # noqa
+                ctx.obligation("abstraction-ident:%d" % i, "harness", False, "%s: %s" % (type(e).__name__, e))
         if i % 9 == 0:
             ctx.sample({"case": c if c["kind"] == "settings" else {"kind": "scenario", "flavour": c["flavour"],
                                                                       "fits": [{k: f[k] for k in ("type", "name", "tag", "prefix", "search", "layout", "n_analyses")} for f in c["fits"]]}},
